@@ -213,6 +213,29 @@ async def _agen_body(inner, pre, post, mode):
         await trap(("agen", "post", i))
 
 
+async def _agen_payload_body(inner):
+    got = yield 0          # receives the payload sent in
+    await awaitable(inner)
+    yield got
+
+
+async def _bystander_agen():
+    yield "bystander"
+
+
+async def link_asend_payload(inner, pre, post):
+    """the value passed to asend() is itself an async generator (started or not): it is a referent of
+    the asend awaitable too, but it is not on the path an exception would take"""
+    ag = _agen_payload_body(inner)
+    await ag.asend(None)
+    other = _bystander_agen()
+    if pre:
+        await other.asend(None)     # a started bystander has ag_frame as well
+    await ag.asend(other)
+    await ag.aclose()
+    await other.aclose()
+
+
 async def link_anext(inner, pre, post):
     ag = _agen_body(inner, pre, post, "plain")
     await ag.__anext__()
@@ -246,6 +269,7 @@ async def link_aclose(inner, pre, post):
 CO_LINKS = {
     "co": link_co, "gc": link_gc, "wrap": link_wrap, "awgen": link_awgen, "anext": link_anext,
     "asend": link_asend, "afor": link_afor, "athrow": link_athrow, "aclose": link_aclose,
+    "asend_payload": link_asend_payload,
 }
 
 
